@@ -48,7 +48,7 @@ def run(report, tier, seed):
         ybin = vlib.build_yardl(sc)
         rng = random.Random(seed * 6007 + 10)
         n = 700 if quick else 12000
-        cases = list(corpus_cases(sc)) + list(cycle_cases(sc)) + list(boundary_cases(rng, sc, quick)) + list(generate_cases(rng, sc, seed, n)) + list(layered_cases(rng, sc, 6 if quick else 40))
+        cases = list(corpus_cases(sc)) + list(cycle_cases(sc)) + list(type_position_cases(sc)) + list(boundary_cases(rng, sc, quick)) + list(generate_cases(rng, sc, seed, n)) + list(layered_cases(rng, sc, 6 if quick else 40))
         with concurrent.futures.ThreadPoolExecutor(max_workers=vlib.NCPU) as ex:
             results = list(ex.map(lambda c: execute(ybin, c), cases))
         for c, (rc, out, secs, cmd) in zip(cases, results):
@@ -342,6 +342,41 @@ def cycle_cases(sc):
         # the same carrier without a cycle is a valid model (or an ordinary type error): it must not hang either
         k += 1
         yield Case("directed:computed-field-chain", sc.path(f"cyc{k}/pkg"), {"model.yml": rec + f"    c0: {carrier.format(f='c1')}\n    c1: a + 1\n"}, man)
+
+
+# a type that cannot be resolved, at every position of a model where a type can be written: the diagnostic names the file and the line
+TYPE_POSITIONS = [
+    ("field", "R: !record\n  fields:\n    a: {t}\n"),
+    ("vector-items", "R: !record\n  fields:\n    a: !vector {{items: {t}}}\n"),
+    ("array-items", "R: !record\n  fields:\n    a: !array {{items: {t}, dimensions: 2}}\n"),
+    ("map-value", "R: !record\n  fields:\n    a: !map {{keys: string, values: {t}}}\n"),
+    ("union-case", "R: !record\n  fields:\n    a: !union {{p: {t}, q: int}}\n"),
+    ("optional", "R: !record\n  fields:\n    a: [null, {t}]\n"),
+    ("alias", "A: {t}\n"),
+    ("generic-argument", "Box<T>: !record\n  fields:\n    v: T\nR: !record\n  fields:\n    a: !generic {{name: Box, args: [{t}]}}\n"),
+    ("step", "P: !protocol\n  sequence:\n    a: {t}\n"),
+    ("stream-items", "P: !protocol\n  sequence:\n    a: !stream {{items: {t}}}\n"),
+    ("enum-base", "E: !enum\n  base: {t}\n  values: [a, b]\n"),
+    ("switch-type-pattern", "R: !record\n  fields:\n    u: [int, float]\n  computedFields:\n    c:\n      !switch u:\n        int: 1\n        {t}: 2\n        _: 3\n"),
+    ("switch-declaration-pattern", "R: !record\n  fields:\n    u: [int, float]\n  computedFields:\n    c:\n      !switch u:\n        int: 1\n        {t} v: 2\n        _: 3\n"),
+    ("switch-declaration-pattern-on-optional", "R: !record\n  fields:\n    o: int?\n  computedFields:\n    c:\n      !switch o:\n        {t} v: 2\n        _: 3\n"),
+    ("nested-switch-declaration-pattern", "R: !record\n  fields:\n    o: int?\n    u: [int, float]\n  computedFields:\n    c:\n      !switch o:\n        int i:\n          !switch u:\n            {t} w: i\n            _: 0\n        _: 3\n"),
+    ("conversion-target", "R: !record\n  fields:\n    a: int\n  computedFields:\n    c: a as {t}\n"),
+]
+UNRESOLVABLE = ['"NoSuchType"', '"NoSuch<int>"', '"int<float>"', '"P0"', '"T"']
+
+
+def type_position_cases(sc):
+    man = "namespace: Fz\n"
+    k = 0
+    for pos, tmpl in TYPE_POSITIONS:
+        for t in UNRESOLVABLE:
+            txt = t.strip('"') if ("switch" in pos or pos == "conversion-target") else t
+            k += 1
+            # P0: a protocol (cannot be referenced as a type); Other<T>: T is only the parameter of another definition
+            model = tmpl.format(t=txt) + "P0: !protocol\n  sequence:\n    z: int\nOther<T>: !record\n  fields:\n    q: T\n"
+            yield Case("directed:unresolvable-type:" + pos, sc.path(f"tpos{k}/pkg"), {"model.yml": model}, man)
+            yield Case("directed:unresolvable-type:" + pos, sc.path(f"tpos{k}b/pkg"), {"first.yml": "Fine: !record\n  fields:\n    x: int\n", "second.yml": model}, man)
 
 
 def corpus_cases(sc):
